@@ -1,13 +1,9 @@
 #!/bin/bash
-# usage: tools/try_patch.sh <patch.diff> [props...]  -- applies to /repo, runs quick checks, reverts
-P="$1"; shift
-PROPS="${@:-$(python3 -c "import json;print(' '.join(c['property_id'] for c in json.load(open('/verif/MANIFEST.json'))['checks']))")}"
-cd /repo && git apply "$P" || { echo "patch does not apply"; exit 3; }
-cd /verif
-for p in $PROPS; do
-  out=$(./check $p quick 2>&1); rc=$?
-  keys=$(echo "$out" | grep -E "^  rule=" | sed 's/  rule=[^ ]* key=//' | head -3 | tr '\n' ' ')
-  inc=$(echo "$out" | grep -c "^INCONCLUSIVE")
-  echo "$p rc=$rc inconclusive=$inc ${keys:0:260}"
-done
-cd /repo && git checkout -- . 
+# usage: tools/try_patch.sh "<props comma>" <patch.diff>  : apply a patch to a scratch copy of /repo HEAD, run the quick checks there
+set -e
+S=$(mktemp -d /tmp/ivp-patch-XXXX); mkdir -p $S/repo
+git -C ${IVP_REPO:-/repo} archive HEAD | tar -x -C $S/repo
+(cd $S/repo && patch -p1 -s < "$2") || { echo "patch does not apply"; rm -rf $S; exit 3; }
+(cd $S/repo && CARGO_NET_OFFLINE=true CARGO_TARGET_DIR=/verif/.cache/target-edit cargo check --offline --lib 2>&1 | grep -E "^error" | head -3)
+for p in ${1//,/ }; do IVP_REPO=$S/repo IVP_VERIF_CACHE=/verif/.cache/corpus-edit IVP_EVIDENCE_DIR=$S/ev python3 /verif/rules/run.py $p quick | grep -E "^(VIOLATION|  rule=|  at |INCONCLUSIVE|SUMMARY)" | cut -c1-400; done
+rm -rf $S
